@@ -1,4 +1,4 @@
-import HappyModel.C06.Windows
+import HappyModel.C06.Engine
 import HappyModel.C06.Spec
 import HappyProofs.C06.Lists
 /-!
@@ -39,6 +39,7 @@ structure WInv (fs : List Fault) (w : WS) (act : List Nat) : Prop where
   lat : w.lat = act.filterMap (latLayer fs)
   loss : w.loss = act.filterMap (lossLayer fs)
   capf : w.capf = act.filterMap (capLayer fs)
+  live : w.live = act.filter (isPartF fs)
 
 theorem winv_init (fs : List Fault) : WInv fs {} [] := by
   constructor <;> intros <;> rfl
@@ -62,6 +63,7 @@ theorem winv_activate (fs : List Fault) (w : WS) (act : List Nat) (f : Nat) (k :
     · simp [WS.activate, latLayer, hk, h.lat]
     · simp [WS.activate, lossLayer, hk, h.loss]
     · simp [WS.activate, capLayer, hk, h.capf]
+    · simp [WS.activate, isPartF, hk, h.live, List.filter_cons]
   | pause e =>
     constructor
     · intro e'
@@ -77,6 +79,7 @@ theorem winv_activate (fs : List Fault) (w : WS) (act : List Nat) (f : Nat) (k :
     · simp [WS.activate, latLayer, hk, h.lat]
     · simp [WS.activate, lossLayer, hk, h.loss]
     · simp [WS.activate, capLayer, hk, h.capf]
+    · simp [WS.activate, isPartF, hk, h.live, List.filter_cons]
   | part asym A B =>
     cases asym with
     | false =>
@@ -87,6 +90,7 @@ theorem winv_activate (fs : List Fault) (w : WS) (act : List Nat) (f : Nat) (k :
       · simp [WS.activate, latLayer, hk, h.lat]
       · simp [WS.activate, lossLayer, hk, h.loss]
       · simp [WS.activate, capLayer, hk, h.capf]
+      · simp [WS.activate, isPartF, hk, h.live, List.filter_cons]
     | true =>
       constructor
       · intro e; simp [WS.activate, sumOver, downC, hk, h.depth e]
@@ -95,6 +99,7 @@ theorem winv_activate (fs : List Fault) (w : WS) (act : List Nat) (f : Nat) (k :
       · simp [WS.activate, latLayer, hk, h.lat]
       · simp [WS.activate, lossLayer, hk, h.loss]
       · simp [WS.activate, capLayer, hk, h.capf]
+      · simp [WS.activate, isPartF, hk, h.live, List.filter_cons]
   | lat a b x =>
     constructor
     · intro e; simp [WS.activate, sumOver, downC, hk, h.depth e]
@@ -103,6 +108,7 @@ theorem winv_activate (fs : List Fault) (w : WS) (act : List Nat) (f : Nat) (k :
     · simp [WS.activate, latLayer, hk, h.lat]
     · simp [WS.activate, lossLayer, hk, h.loss]
     · simp [WS.activate, capLayer, hk, h.capf]
+    · simp [WS.activate, isPartF, hk, h.live, List.filter_cons]
   | loss a b x =>
     constructor
     · intro e; simp [WS.activate, sumOver, downC, hk, h.depth e]
@@ -111,6 +117,7 @@ theorem winv_activate (fs : List Fault) (w : WS) (act : List Nat) (f : Nat) (k :
     · simp [WS.activate, latLayer, hk, h.lat]
     · simp [WS.activate, lossLayer, hk, h.loss]
     · simp [WS.activate, capLayer, hk, h.capf]
+    · simp [WS.activate, isPartF, hk, h.live, List.filter_cons]
   | cap n d =>
     constructor
     · intro e; simp [WS.activate, sumOver, downC, hk, h.depth e]
@@ -119,6 +126,7 @@ theorem winv_activate (fs : List Fault) (w : WS) (act : List Nat) (f : Nat) (k :
     · simp [WS.activate, latLayer, hk, h.lat]
     · simp [WS.activate, lossLayer, hk, h.loss]
     · simp [WS.activate, capLayer, hk, h.capf]
+    · simp [WS.activate, isPartF, hk, h.live, List.filter_cons]
 
 theorem sumOver_erase (g : Nat → Nat) (act : List Nat) (f : Nat) (hf : f ∈ act) :
     sumOver (act.erase f) g = sumOver act g - g f := sum_map_erase g act f hf
@@ -130,6 +138,17 @@ theorem winv_deactivate (fs : List Fault) (w : WS) (act : List Nat) (f : Nat) (k
   have hlat := filterMap_erase (β := Layer) (·.fid) (latLayer fs) (latLayer_fid fs) act f nd
   have hloss := filterMap_erase (β := Layer) (·.fid) (lossLayer fs) (lossLayer_fid fs) act f nd
   have hcap := filterMap_erase (β := Factor) (·.fid) (capLayer fs) (capLayer_fid fs) act f nd
+  have hnp : isPartK k = false → (act.erase f).filter (isPartF fs) = act.filter (isPartF fs) := by
+    intro hp
+    apply filter_erase_false
+    cases k <;> simp_all [isPartF, isPartK]
+  have hlive : isPartK k = true → f ∈ w.live ∧
+      (act.erase f).filter (isPartF fs) = w.live.erase f := by
+    intro hp
+    have hpf : isPartF fs f = true := by cases k <;> simp_all [isPartF, isPartK]
+    refine ⟨?_, ?_⟩
+    · rw [h.live]; exact List.mem_filter.mpr ⟨hf, hpf⟩
+    · rw [h.live]; exact filter_erase_true _ act f hpf
   cases k with
   | crash e =>
     constructor
@@ -146,6 +165,7 @@ theorem winv_deactivate (fs : List Fault) (w : WS) (act : List Nat) (f : Nat) (k
     · rw [filterMap_erase_none _ act f (by simp [latLayer, hk])]; exact h.lat
     · rw [filterMap_erase_none _ act f (by simp [lossLayer, hk])]; exact h.loss
     · rw [filterMap_erase_none _ act f (by simp [capLayer, hk])]; exact h.capf
+    · rw [hnp rfl]; exact h.live
   | pause e =>
     constructor
     · intro e'
@@ -161,24 +181,28 @@ theorem winv_deactivate (fs : List Fault) (w : WS) (act : List Nat) (f : Nat) (k
     · rw [filterMap_erase_none _ act f (by simp [latLayer, hk])]; exact h.lat
     · rw [filterMap_erase_none _ act f (by simp [lossLayer, hk])]; exact h.loss
     · rw [filterMap_erase_none _ act f (by simp [capLayer, hk])]; exact h.capf
+    · rw [hnp rfl]; exact h.live
   | part asym A B =>
+    obtain ⟨hc, hl⟩ := hlive rfl
     cases asym with
     | false =>
       constructor
-      · intro e; rw [sumOver_erase _ act f hf]; simp [WS.deactivate, downC, hk, h.depth e]
-      · intro a b; rw [sumOver_erase _ act f hf]; simp [WS.deactivate, biC, hk, h.bi a b, biCov]
-      · intro a b; rw [sumOver_erase _ act f hf]; simp [WS.deactivate, dirC, hk, h.dir a b]
-      · rw [filterMap_erase_none _ act f (by simp [latLayer, hk])]; exact h.lat
-      · rw [filterMap_erase_none _ act f (by simp [lossLayer, hk])]; exact h.loss
-      · rw [filterMap_erase_none _ act f (by simp [capLayer, hk])]; exact h.capf
+      · intro e; rw [sumOver_erase _ act f hf]; simp [WS.deactivate, hc, downC, hk, h.depth e]
+      · intro a b; rw [sumOver_erase _ act f hf]; simp [WS.deactivate, hc, biC, hk, h.bi a b, biCov]
+      · intro a b; rw [sumOver_erase _ act f hf]; simp [WS.deactivate, hc, dirC, hk, h.dir a b]
+      · rw [filterMap_erase_none _ act f (by simp [latLayer, hk])]; simp [WS.deactivate, hc, h.lat]
+      · rw [filterMap_erase_none _ act f (by simp [lossLayer, hk])]; simp [WS.deactivate, hc, h.loss]
+      · rw [filterMap_erase_none _ act f (by simp [capLayer, hk])]; simp [WS.deactivate, hc, h.capf]
+      · rw [hl]; simp [WS.deactivate, hc]
     | true =>
       constructor
-      · intro e; rw [sumOver_erase _ act f hf]; simp [WS.deactivate, downC, hk, h.depth e]
-      · intro a b; rw [sumOver_erase _ act f hf]; simp [WS.deactivate, biC, hk, h.bi a b]
-      · intro a b; rw [sumOver_erase _ act f hf]; simp [WS.deactivate, dirC, hk, h.dir a b, dirCov]
-      · rw [filterMap_erase_none _ act f (by simp [latLayer, hk])]; exact h.lat
-      · rw [filterMap_erase_none _ act f (by simp [lossLayer, hk])]; exact h.loss
-      · rw [filterMap_erase_none _ act f (by simp [capLayer, hk])]; exact h.capf
+      · intro e; rw [sumOver_erase _ act f hf]; simp [WS.deactivate, hc, downC, hk, h.depth e]
+      · intro a b; rw [sumOver_erase _ act f hf]; simp [WS.deactivate, hc, biC, hk, h.bi a b]
+      · intro a b; rw [sumOver_erase _ act f hf]; simp [WS.deactivate, hc, dirC, hk, h.dir a b, dirCov]
+      · rw [filterMap_erase_none _ act f (by simp [latLayer, hk])]; simp [WS.deactivate, hc, h.lat]
+      · rw [filterMap_erase_none _ act f (by simp [lossLayer, hk])]; simp [WS.deactivate, hc, h.loss]
+      · rw [filterMap_erase_none _ act f (by simp [capLayer, hk])]; simp [WS.deactivate, hc, h.capf]
+      · rw [hl]; simp [WS.deactivate, hc]
   | lat a b x =>
     constructor
     · intro e; rw [sumOver_erase _ act f hf]; simp [WS.deactivate, downC, hk, h.depth e]
@@ -187,6 +211,7 @@ theorem winv_deactivate (fs : List Fault) (w : WS) (act : List Nat) (f : Nat) (k
     · rw [hlat]; simp [WS.deactivate, h.lat]
     · rw [filterMap_erase_none _ act f (by simp [lossLayer, hk])]; exact h.loss
     · rw [filterMap_erase_none _ act f (by simp [capLayer, hk])]; exact h.capf
+    · rw [hnp rfl]; exact h.live
   | loss a b x =>
     constructor
     · intro e; rw [sumOver_erase _ act f hf]; simp [WS.deactivate, downC, hk, h.depth e]
@@ -195,6 +220,7 @@ theorem winv_deactivate (fs : List Fault) (w : WS) (act : List Nat) (f : Nat) (k
     · rw [filterMap_erase_none _ act f (by simp [latLayer, hk])]; exact h.lat
     · rw [hloss]; simp [WS.deactivate, h.loss]
     · rw [filterMap_erase_none _ act f (by simp [capLayer, hk])]; exact h.capf
+    · rw [hnp rfl]; exact h.live
   | cap n d =>
     constructor
     · intro e; rw [sumOver_erase _ act f hf]; simp [WS.deactivate, downC, hk, h.depth e]
@@ -203,5 +229,68 @@ theorem winv_deactivate (fs : List Fault) (w : WS) (act : List Nat) (f : Nat) (k
     · rw [filterMap_erase_none _ act f (by simp [latLayer, hk])]; exact h.lat
     · rw [filterMap_erase_none _ act f (by simp [lossLayer, hk])]; exact h.loss
     · rw [hcap]; simp [WS.deactivate, h.capf]
+    · rw [hnp rfl]; exact h.live
+
+/-- `Partition.heal()` on a handle that holds nothing any more — healed before, or swept by
+    `Network.heal_partition()` — changes nothing: in particular it cannot release a reference that
+    belongs to another, still active partition -/
+theorem winv_deactivate_stale (fs : List Fault) (w : WS) (act : List Nat) (f : Nat) (k : Kind)
+    (hp : isPartK k = true) (h : WInv fs w act) (hf : f ∉ act) :
+    w.deactivate f k = w ∧ act.erase f = act := by
+  have hc : f ∉ w.live := by
+    rw [h.live]
+    exact fun hm => hf (List.mem_filter.mp hm).1
+  refine ⟨?_, List.erase_of_not_mem hf⟩
+  cases k with
+  | part asym A B => cases asym <;> simp [WS.deactivate, hc]
+  | _ => simp [isPartK] at hp
+
+theorem part_contributes (fs : List Fault) (x : Nat) (hx : isPartF fs x = true) :
+    (∀ e, downC fs x e = 0) ∧ latLayer fs x = none ∧ lossLayer fs x = none ∧ capLayer fs x = none := by
+  unfold isPartF at hx
+  cases hk : kindOf fs x with
+  | none => simp [hk] at hx
+  | some k => cases k <;> simp_all [downC, latLayer, lossLayer, capLayer]
+
+theorem nonpart_contributes (fs : List Fault) (x : Nat) (hx : isPartF fs x = false) (a b : Nat) :
+    biC fs x a b = 0 ∧ dirC fs x a b = 0 := by
+  unfold isPartF at hx
+  cases hk : kindOf fs x with
+  | none => simp [biC, dirC, hk]
+  | some k => cases k <;> simp_all [biC, dirC]
+
+/-- `Network.heal_partition()` ends every open partition window and nothing else -/
+theorem winv_healall (fs : List Fault) (w : WS) (act : List Nat) (h : WInv fs w act) :
+    WInv fs w.healAll (act.filter fun f => !isPartF fs f) := by
+  have hz : ∀ x, (!isPartF fs x) = false → isPartF fs x = true := by intro x hx; simpa using hx
+  constructor
+  · intro e
+    show w.depth e = _
+    rw [h.depth e]; unfold sumOver
+    exact (sum_map_filter_zero _ _ (fun x hx => (part_contributes fs x (hz x hx)).1 e) act).symm
+  · intro a b
+    show 0 = _
+    unfold sumOver
+    exact (sum_map_zero _ _ (fun x hx =>
+      (nonpart_contributes fs x (by simpa using (List.mem_filter.mp hx).2) a b).1)).symm
+  · intro a b
+    show 0 = _
+    unfold sumOver
+    exact (sum_map_zero _ _ (fun x hx =>
+      (nonpart_contributes fs x (by simpa using (List.mem_filter.mp hx).2) a b).2)).symm
+  · show w.lat = _
+    rw [h.lat]
+    exact (filterMap_filter_none _ _ (fun x hx => (part_contributes fs x (hz x hx)).2.1) act).symm
+  · show w.loss = _
+    rw [h.loss]
+    exact (filterMap_filter_none _ _ (fun x hx => (part_contributes fs x (hz x hx)).2.2.1) act).symm
+  · show w.capf = _
+    rw [h.capf]
+    exact (filterMap_filter_none _ _ (fun x hx => (part_contributes fs x (hz x hx)).2.2.2) act).symm
+  · show [] = _
+    rw [List.filter_filter]
+    symm
+    apply List.filter_eq_nil_iff.mpr
+    intro x _; simp
 
 end HappyModel.C06
